@@ -196,6 +196,27 @@ def decodeContent (b : Bytes) : Option Content :=
     | none => none
     | some c1 => decodeFields c1
 
+/-! ### encoding (`ManifestContent::new` + `encode_ref`, `FileAndHash::encode_ref`) -/
+
+/-- `Time::encode_generalized_time` -/
+def genTime (c : X509.Civil) : Bytes :=
+  X509.pad4 c.y ++ X509.pad2 c.m ++ X509.pad2 c.d ++ X509.pad2 c.h ++ X509.pad2 c.mi ++ X509.pad2 c.s ++ [90]
+
+/-- `FileAndHash::encode_ref`: SEQUENCE { IA5String file, BIT STRING hash (no unused bits) } -/
+def encodeEntry (e : Entry) : Bytes := tlv tagSeq (tlv tagIa5 e.name ++ tlv tagBitString (0 :: e.hash))
+
+/-- the captured file list of `ManifestContent::new` -/
+def encodeFileList (es : List Entry) : Bytes := (es.map encodeEntry).flatten
+
+/-- `ManifestContent::encode_ref` (version omitted, both times as GeneralizedTime) -/
+def encodeContent (number : Bytes) (thisUpdate nextUpdate : X509.Civil) (es : List Entry) : Bytes :=
+  tlv tagSeq (
+    tlv tagInt (X509.encodeContent number) ++
+    tlv tagGenTime (genTime thisUpdate) ++
+    tlv tagGenTime (genTime nextUpdate) ++
+    tlv tagOid sha256Oid ++
+    tlv tagSeq (encodeFileList es))
+
 /-- `iter_uris`: `none` = the `unwrap()` on `join` panics -/
 def iterUris (m : Content) (base : Uri.Rsync) : Option (List (Uri.Rsync × Bytes)) :=
   match m.iter with
